@@ -475,6 +475,19 @@ def _far_enough_filter(ctx: Ctx, cls_name: str, helper_name: str, want_filter: s
             o = type(rv.operand.ops[0])
             if o in inv:
                 rv = ast.Compare(left=rv.operand.left, ops=[inv[o]()], comparators=rv.operand.comparators)
+    wrapped_all = False
+    while isinstance(rv, ast.Call) and norm(rv.func) in ("np.all", "all", "bool", "numpy.all") and len(rv.args) == 1:
+        wrapped_all = wrapped_all or norm(rv.func) != "bool"
+        rv = rv.args[0]
+    if isinstance(rv, ast.Compare) and len(rv.ops) == 1 and wrapped_all:
+        # vectorised form: the helper receives all centroids at once
+        l0 = rv.left if not isinstance(rv.ops[0], (ast.Lt, ast.LtE)) else rv.comparators[0]
+        if isinstance(l0, ast.Call) and norm(l0.func).split(".")[-1] == "norm" and not any(k.arg == "axis" for k in l0.keywords) and len(l0.args) < 3:
+            st, why = VIOLATION, f"`{norm(rets[0].value)[:90]}`: the norm is taken over the whole matrix of centroids at once (no axis): one number for all siblings instead of one distance per sibling"
+            rv = None
+        else:
+            st, why = INCONCLUSIVE, "vectorised distance predicate: per-sibling distances are not analysed"
+            rv = None
     if isinstance(rv, ast.Compare) and len(rv.ops) == 1:
         l, r, op = rv.left, rv.comparators[0], rv.ops[0]
         if isinstance(op, (ast.Lt, ast.LtE)):
@@ -568,8 +581,8 @@ def r09_4(ctx: Ctx):
                         pop = nd[0].args[0] if nd[0].args else next((k.value for k in nd[0].keywords if k.arg in ("evaluated_individuals", "individuals", "population")), None)
                     popt = canon(pop, defs) if pop is not None else "?"
                     inds = _resolve1(next((k.value for k in dc.keywords if k.arg == "individuals"), dc.args[0] if dc.args else None), defs)
-                    if isinstance(inds, ast.Call) and norm(inds.func).endswith(".cluster") and isinstance(inds.func.value, ast.Name):
-                        other = inds.func.value.id
+                    if isinstance(inds, ast.Call) and isinstance(inds.func, ast.Attribute) and inds.func.attr == "cluster" and isinstance(inds.func.value, (ast.Name, ast.Call)):
+                        other = inds.func.value.id if isinstance(inds.func.value, ast.Name) else f"<{norm(inds.func.value.func)}(...) built in place>"
                         if not built:
                             st, why = INCONCLUSIVE, f"`{nbc}` is not a single NearestBetterClustering(...) construction"
                         elif other != nbc:
